@@ -4,7 +4,7 @@ tainted_volatile<T*>::assign_raw_pointer (1301-1330), rlbox_sandbox::UNSAFE_acce
 (rlbox_sandbox.hpp:816-824).  The compile-time clause (which programs are rejected) is out of reach of a
 run-time contract - see DESIGN.md C02."""
 from vlib.unit import Unit, Inst
-from .common import cs, PRE_GHOST
+from .common import cs, PRE_GHOST, dyn_keeps
 
 PROP = 'C02'
 TITLE = 'Application pointers and foreign-sandbox data cannot enter a sandbox unchecked (run-time clause)'
@@ -24,6 +24,7 @@ def sb_req(arg):
             ('sandbox_obj', '__CPROVER_requires(__CPROVER_r_ok(%s, sizeof(struct %s)) && (%s->base0.slot == 0 || %s->base0.slot == 1) && V_LIVE(%s->base0.slot))' % (arg, SB, arg, arg, arg))]
 
 
+SNAP = ' void *g_obj; unsigned long g_snap;'
 PTYPES = {'int*': ('int *', 'int*'), 'fnptr': ('int (*)(int)', 'int (*)(int)')}
 
 
@@ -43,11 +44,12 @@ def tainted_assign(ptype, tier):
         ('stored', '__CPROVER_ensures((uintptr_t)$this->data == %s)' % V),
         ('frame', '__CPROVER_assigns($this->data)'),
     ]
-    h = SB_HARNESS + '  struct %s t; uintptr_t in_val; %s = (void *)in_val;\n  $ROOT(&t, &sb, raw);\n' % (TT, decl_of(ptype, 'raw'))
+    h = SB_HARNESS + '  struct %s t; uintptr_t in_val; %s = (void *)in_val; g_obj = &t; g_snap = (uintptr_t)t.data;\n  $ROOT(&t, &sb, raw);\n' % (TT, decl_of(ptype, 'raw'))
+    keep = dyn_keeps('(uintptr_t)((struct %s *)g_obj)->data == g_snap' % TT, 'a_refused_pointer_is_not_stored')
     return Inst('c02_tainted_assign_raw_%s' % ('objptr' if ptype == 'int*' else 'fnptr'),
                 'tainted<%s, vsbx>& t, rlbox_sandbox<vsbx>& s, %s' % (cxx, decl_of(ptype, 'raw')), 't.assign_raw_pointer(s, raw);', cl, h,
-                leaves=['dynamic_check', 'vsbx.impl_is_pointer_in_sandbox_memory'], prop=PROP, root_name='assign_raw_pointer', tier=tier,
-                pre=PRE_GHOST, replay={'kind': 'assign_raw', 'wrap': 'tainted', 'ptype': cxx})
+                leaves=[keep, 'vsbx.impl_is_pointer_in_sandbox_memory'], prop=PROP, root_name='assign_raw_pointer', tier=tier,
+                pre=PRE_GHOST + SNAP, replay={'kind': 'assign_raw', 'wrap': 'tainted', 'ptype': cxx})
 
 
 def volatile_assign(ptype, tier):
@@ -63,11 +65,12 @@ def volatile_assign(ptype, tier):
         ('guest_cell_is_4_bytes', '__CPROVER_ensures(sizeof($this->data) == 4)'),
         ('frame', '__CPROVER_assigns($this->data)'),
     ]
-    h = SB_HARNESS + '  struct %s t; uintptr_t in_val; %s = (void *)in_val;\n  $ROOT(&t, &sb, raw);\n' % (TV, decl_of(ptype, 'raw'))
+    h = SB_HARNESS + '  struct %s t; uintptr_t in_val; %s = (void *)in_val; g_obj = &t; g_snap = (uintptr_t)t.data;\n  $ROOT(&t, &sb, raw);\n' % (TV, decl_of(ptype, 'raw'))
+    keep = dyn_keeps('(uintptr_t)((struct %s *)g_obj)->data == g_snap' % TV, 'a_refused_pointer_is_not_stored')
     return Inst('c02_volatile_assign_raw_%s' % ('objptr' if ptype == 'int*' else 'fnptr'),
                 'tainted_volatile<%s, vsbx>& t, rlbox_sandbox<vsbx>& s, %s' % (cxx, decl_of(ptype, 'raw')), 't.assign_raw_pointer(s, raw);', cl, h,
-                leaves=['dynamic_check', 'vsbx.impl_is_pointer_in_sandbox_memory', 'vsbx.impl_get_sandboxed_pointer'], prop=PROP,
-                root_name='assign_raw_pointer', tier=tier, pre=PRE_GHOST, replay={'kind': 'assign_raw', 'wrap': 'tainted_volatile', 'ptype': cxx})
+                leaves=[keep, 'vsbx.impl_is_pointer_in_sandbox_memory', 'vsbx.impl_get_sandboxed_pointer'], prop=PROP,
+                root_name='assign_raw_pointer', tier=tier, pre=PRE_GHOST + SNAP, replay={'kind': 'assign_raw', 'wrap': 'tainted_volatile', 'ptype': cxx})
 
 
 def accept_pointer(tier):
